@@ -358,19 +358,28 @@ macro_rules! impl_tryfrom_integer {
                             if matches!(e, lexical_core::Error::InvalidDigit(_)) {
                                 let value = lexical_core::parse::<$intermediate>(value)?;
 
-                                if !value.is_normal() {
+                                // <f32|f64>::round() doesn't exist in no_std...
+                                // Accept everything whose nearest integer may be representable
+                                // (zero and subnormals included), reject NaN/infinity.
+                                if !(value < (<$from>::MAX as $intermediate) + 0.5) {
                                     Err(lexical_core::Error::Overflow(0).into())
-                                } else if value > (<$from>::MAX as $intermediate) {
-                                    Err(lexical_core::Error::Overflow(0).into())
-                                } else if value < (<$from>::MIN as $intermediate) {
+                                } else if !(value >= (<$from>::MIN as $intermediate) - 0.5) {
                                     Err(lexical_core::Error::Underflow(0).into())
                                 } else {
-                                    // <f32|f64>::round() doesn't exist in no_std...
-                                    // Safe because value is checked to be normal and within bounds earlier
-                                    if value.is_sign_positive() {
-                                        Ok(unsafe { (value + 0.5).to_int_unchecked() })
+                                    // `as` truncates towards zero and saturates (never UB),
+                                    // the remaining fraction is exact and decides the rounding.
+                                    let truncated = value as $from;
+                                    let fraction = value - (truncated as $intermediate);
+                                    if fraction >= 0.5 {
+                                        truncated
+                                            .checked_add(1)
+                                            .ok_or(lexical_core::Error::Overflow(0))
+                                    } else if fraction <= -0.5 {
+                                        truncated
+                                            .checked_sub(1)
+                                            .ok_or(lexical_core::Error::Underflow(0))
                                     } else {
-                                        Ok(unsafe { (value - 0.5).to_int_unchecked() })
+                                        Ok(truncated)
                                     }
                                 }
                             } else {
